@@ -13,7 +13,7 @@ P1 non-finite values: decstring accepts only tokens ending in a digit or '.', ev
    final characters; the dense vector reader rejects what decstring rejects.
 """
 import re
-from ..cfg import xrender, norm_facts, expand_locals, _stable_local_inits, Facts, kids, strip, walk, cv, render, call_args, call_object
+from ..cfg import reach_calls, xrender, norm_facts, expand_locals, _stable_local_inits, Facts, kids, strip, walk, cv, render, call_args, call_object
 from ..cfg import short_loc as _short_loc
 from ..facts import export_many, AnalysisBroken
 
@@ -98,7 +98,7 @@ def run(rep, ctx):
                               r"mp::internal::SuffixValueCounter::.*", r"mp::BasicSuffix::VisitValues", r"mp::Suffix::VisitValues"],
                  var=[r"mp::internal::SUFFIX_KIND_MASK"], enum=[r"mp::suf::.*", r"mp::internal::.*"], repo=repo),
             dict(unit="src/sol.cc", fn=[r"mp::internal::WriteMessage"], repo=repo),
-            dict(unit=RU, fn=[r"mp::SOLReader2::(ReadSOLFile|gsufread|sufheadcheck)", r"mp::(Lget|decstring|Read)", r"mp::[a-z_0-9]+", r"mp::VecReader::ReadNext"],
+            dict(unit=RU, closure=1, closure_roots=r"SOLReader2::gsufread$", fn=[r"mp::SOLReader2::(ReadSOLFile|gsufread|sufheadcheck)", r"mp::(Lget|decstring|Read)", r"mp::[a-z_0-9]+", r"mp::VecReader::ReadNext"],
                  repo=repo)]
     F = Facts(export_many(jobs))
     rep.note_units([WU, "src/sol.cc", RU])
@@ -302,11 +302,14 @@ def run(rep, ctx):
     got = [render(call_args(c)[1]).replace("&", "").split(".")[-1] for c in lg]
     t2.check(got == ["kind", "n", "namelen", "tablen", "tablines"], "suffix-header-read", short_loc(lg[0].get("l")) if lg else "",
              "parsed in the order kind, n, namelen, tablen, tablines", str(got))
-    sr = [x for x in GS.walk() if x["k"] == "VarDecl" and x.get("name") == "sr"]
-    okn = len(sr) == 2 and all(render(kids(strip(kids(x)[0]))[3]) == "SR.h.n" for x in sr)
+    # the two suffix readers (int / double), built by gsufread itself or by a delivery helper it calls
+    ctors = list(reach_calls(F, GS, lambda n: n["k"] in ("CXXConstructExpr", "CXXTemporaryObjectExpr") and "SuffixReader" in (n.get("callee") or "")
+                             and len(kids(n)) >= 4, depth=1))
+    okn = len(ctors) == 2 and all(render(res_(kids(c_)[3])).replace(" ", "").endswith("SR.h.n") for a_, c_, res_, o_ in ctors)
     t2.check(okn, "suffix-n-is-line-count", short_loc(GS.loc), "n is the number of value lines read")
-    dbl = [c for c in GS.walk() if c["k"] == "CXXMemberCallExpr" and c.get("callee", "").endswith("::OnDblSuffix")]
-    okd = len(dbl) == 1 and any(render(GS.nodes[cid]).replace(" ", "") == "SR.h.kind&4" and pol is True for cid, pol in GS.cfg.facts_at(dbl[0]))
+    dblr = list(reach_calls(F, GS, lambda n: n["k"] == "CXXMemberCallExpr" and n.get("callee", "").endswith("::OnDblSuffix"), depth=1))
+    dbl = [c_ for a_, c_, r_, o_ in dblr]
+    okd = len(dblr) == 1 and any(t.endswith("SR.h.kind&4") and pol is True for t, pol in norm_facts(dblr[0][3], dblr[0][1], loop_conditions=False))
     fl = F.enum_values("mp::suf::Kind") or {}
     t2.check(okd and (fl.get("FLOAT", 4) == 4), "suffix-float-bit", short_loc(dbl[0].get("l")) if dbl else "",
              "real-valued iff kind & 4 (= suf::FLOAT)")
@@ -610,16 +613,12 @@ def run(rep, ctx):
              "the value and the end pointer come from strtod(buf, &be)")
     dc = [n for n in RD.walk() if n["k"] == "CallExpr" and n.get("callee") == "mp::decstring"]
     okr_ = False
-    if len(dc) == 1:
-        iff = RD.enclosing(dc[0], ("IfStmt",))
-        def conj(e):
-            e = strip(e)
-            if e["k"] == "BinaryOperator" and e.get("op") == "&&":
-                return conj(kids(e)[0]) + conj(kids(e)[1])
-            return [e]
-        ops = conj(kids(iff)[0]) if iff is not None else []
-        okr_ = iff is not None and len(ops) == 2 and sorted(render(o).replace(" ", "").split("(")[0] for o in ops) == ["!binary", "decstring"] \
-            and "Bad_Line" in render(kids(iff)[1])
+    # shape-free: some `return ...Bad_Line` is reached exactly under  !binary && decstring(...)
+    for r_ in RD.walk():
+        if r_["k"] == "ReturnStmt" and "Bad_Line" in render(r_):
+            fa_ = norm_facts(RD, r_, loop_conditions=False)
+            if len(dc) == 1 and ("binary", False) in fa_ and any(t.startswith("decstring(") and pol is True for t, pol in fa_):
+                okr_ = True
     p1.check(okr_, "dense-reader-rejects", short_loc(RD.loc), "a dense value line rejected by decstring yields NLW2_SOLRead_Bad_Line")
     vrn = one("mp::VecReader::ReadNext", lambda f: "double" in f.full and "pair" not in f.full)
     rdcall = [n for n in vrn.walk() if n["k"] == "CallExpr" and n.get("callee") == "mp::Read"]
